@@ -293,7 +293,9 @@ def e08_required_after_optional(tree, pts, ins, pick):
     c = [p for p in _clean(pts) if p.opt]
     if not c:
         return None
-    p = pick(c)
+    inherited = [p for p in c if p.idx == 0 and p.in_case]
+    # the first instruction of a case body that follows an optional member of the ENCLOSING body
+    p = pick(inherited) if inherited and pick([0, 1, 2]) == 0 else pick(c)
     kind = pick(["field", "array", "length", "hardcoded_unnamed", "hardcoded_named"])
     nm = _fresh(_all_names(p))
     if kind == "hardcoded_unnamed":
